@@ -182,6 +182,13 @@ def apply_edit(pattern, edit, fail_at, before=None):
                 if edit["scribble"]:
                     new[0][0] = mk_note([1, 1, 1, 1, 1])
                     new[-1][-1].vel = 99
+                    if j % 2:
+                        # the scratch array is also walked, not only indexed
+                        for line_ in new:
+                            for note_ in line_:
+                                note_.ctl = 0x0707
+                        for note_ in list(reversed(new))[0]:
+                            note_.val = 0x0101
                 raise make_exc(edit.get("exc"), j)
             yield idx // tracks, idx % tracks, supplied_note(c, edit.get("source"))
         if fail_at is not None and fail_at >= len(yields):
